@@ -23,6 +23,22 @@ TECHNIQUE = "raise census + guard normal form + fold-aware definite assignment +
 VIR = "tad.py::Solver.value_iteration_reachability"
 
 
+def _abstract_stub(ctx, f):
+    """f is a base-class method whose body is only `raise NotImplementedError(...)` and every class the solver instantiates
+    (the node classes built by init_states) resolves the method to an override."""
+    body = [st for st in f.node.body if not (isinstance(st, ast.Expr) and isinstance(st.value, ast.Constant))]
+    if len(body) != 1 or not isinstance(body[0], ast.Raise):
+        return False
+    built = set(K.role_classes(ctx).values())
+    if f.cls.name in built:
+        return False
+    for c in built:
+        m = ctx.prog.resolve_method(c, f.name)
+        if m is None or m is f or m.qual == f.qual:
+            return False
+    return True
+
+
 def r1_raise_census(ctx, chk, rule="C06.1"):
     scope = shared.solver_scope(ctx)
     n = 0
@@ -41,6 +57,8 @@ def r1_raise_census(ctx, chk, rule="C06.1"):
                 chk.ok(rule, f.where(r), "raise ValueError(...)")
             elif exc is None:
                 chk.undecided(rule, f.where(r), "bare re-raise")
+            elif name == "NotImplementedError" and f.cls is not None and _abstract_stub(ctx, f):
+                chk.ok(rule, f.where(r), "abstract stub: every node class that the game builds overrides %s, the base version cannot run" % f.name)
             else:
                 chk.violation(rule, f.where(r), "solve() can fail with %s: `%s`; the documented failure mode is ValueError" % (name, norm_stmt(r)),
                               expected="ValueError", found=name, construct="%s raises %s" % (f.short, name))
